@@ -268,6 +268,10 @@ class MockState:
 
         Line nodes are placed into child line block containers, based on their indentation.
         """
+        # (docutils strips every leading blank line of a directive's content, MyST at most one:
+        # a blank first line has no indent of its own)
+        if len(block) and getattr(block[0], "indent", None) is None:
+            block[0].indent = 0
         for index in range(1, len(block)):
             if getattr(block[index], "indent", None) is None:
                 block[index].indent = block[index - 1].indent
